@@ -41,6 +41,7 @@ func createSegment(name string, opt Options) (err error) {
 	if err != nil {
 		return
 	}
+	verifPoint(filepath.Dir(name), "createSegment.created")
 	defer func() {
 		if e := f.Close(); err == nil {
 			err = e
